@@ -393,7 +393,7 @@ def cases(tier, rng):
     out = []
     liks = ["gauss", "fixed", "fixedl"]
     modes = ["plain", "shared", "per", "unb"]
-    reps = 1 if quick else 8
+    reps = 1 if quick else 6
     for _ in range(reps):
         # (1) full cover of b x mode x lik x fpv at depth 1
         for b, mode, lik, fpv in itertools.product([[], [2]], modes, liks, [0, 1]):
